@@ -38,6 +38,10 @@ def clustered_list(rng, nmax, allow_empty=False, big=True):
     ncl = rng.randint(1, 5)
     scale = rng.choice([1, 1, 10, 1000, BIG // 8]) if big else 1
     centres = [rng.randrange(-scale * 4, scale * 4 + 1) for _ in range(ncl)]
+    if big and rng.random() < 0.35:
+        # the whole domain |x| < 2^62: positions at and beyond +-2^61, next to +-2^62, mixed with small ones
+        edge = [BIG - 4, -(BIG - 4), BIG // 2, -(BIG // 2), BIG // 2 + 7, -(BIG // 2) - 7, (BIG // 4) * 3, -(BIG // 4) * 3, 0, 5]
+        centres = [rng.choice(edge) + rng.randint(-3, 3) for _ in range(ncl)] + centres[:rng.randint(0, 2)]
     n = rng.randint(1, nmax)
     out = []
     for _ in range(n):
